@@ -24,6 +24,7 @@ RULE = (
     ' Round 5: packs mixing cp1252/cp932/UTF-8 files with non-ASCII titles; directories named like audio, image and simfile files.'
     ' Round 6: names not in Unicode normal form C; filesystem passed positionally to opendir/openpack.'
     " Round 7: native trees rebuilt at one path under one filesystem object, names starting with '._'."
+    ' Round 8: near-miss names ending in a line feed or blank.'
 )
 ASSUMPTIONS = ["MemoryFS and the native filesystem list what was created"]
 MONITORS = ["simfile_directory", "pack_listing", "opendir", "openpack", "loader_options_recorder"]
